@@ -160,6 +160,15 @@ CHECKS = {
             "class, index variants, option sets, how / suffixes / index-or-column keys).",
             "Trusted: TLC; tidytcells as per-cell oracle (called by the harness on each single cell). multimerge with unique keys.",
             "TLA+ model checking (TLC) + spec-to-code replay"),
+    "C19": ("DESIGN.md 4/C19",
+            "Summaries.tla: per-position count matrix (CountColumn), regular expression built from it (RegexColumn), rankfrequency (RankData) and "
+            "discrete density scatter (UniquePoints) are model-checked for all small aligned inputs with gaps, count vectors with missing values "
+            "and point sets (RegexIsProductLanguage, RegexMatchesInputs, CountsExact, RankDescending, ScatterOnce). Every terminal behaviour is "
+            "executed headless: the regex is matched against all strings up to the length bound; consensus, logo counts, Line2D data, scatter "
+            "offsets / colour array are read back. Colour assignments, rankfrequency on larger vectors and similarity_clustermap (split heat map "
+            "in dendrogram order, distances recomputed by TLC; linkage / clusters = SciPy on the spec-checked vector) are validated by TraceSummaries.tla.",
+            "Trusted: TLC; matplotlib / seaborn / logomaker rendering (only artist data are read back); SciPy linkage.",
+            "TLA+ model checking (TLC) + spec-to-code replay + trace validation of recorded artist data"),
 }
 
 NOT_YET = {
